@@ -56,6 +56,11 @@ THEOREMS = [P + n for n in [
     "derived_wf_inverse_condition",
     "generated_escape_derivation",
     "generated_cfg_tables_derived",
+    "comment_read_back",
+    "raw_literal_read",
+    "raw_read_needs_premise",
+    "foreign_delimiter_preserved",
+    "generated_identifier_scan_shape",
     "generated_wf_byte_raw",
     "generated_wf",
     "generated_wf_fast",
@@ -656,6 +661,46 @@ def translate(chk: Check) -> str:
     sites = identifier_sites()
     lines.append("-- every Identifier(...) construction in sqlglot/expressions/*.py; anything but to_identifier bypasses the automatic quoting")
     lines.append("def identifierSites : List String := [" + ", ".join(lean_str(x) for x in sites) + "]")
+    # the identifier scanner: ast shape + the live escape set of every core vs the declared IDENTIFIER_ESCAPES
+    shape = []
+    try:
+        tc = ast.parse(open(os.path.join(REPO, "sqlglot", "tokenizer_core.py"), encoding="utf-8").read())
+        tk = ast.parse(open(os.path.join(REPO, "sqlglot", "tokens.py"), encoding="utf-8").read())
+        for node in ast.walk(tc):
+            if isinstance(node, ast.FunctionDef) and node.name == "_scan_identifier":
+                for n in ast.walk(node):
+                    if isinstance(n, ast.Call) and ast.unparse(n.func) == "self._extract_string":
+                        shape.append(ast.unparse(n).replace("self._extract_string", "_extract_string"))
+            if isinstance(node, ast.Assign) and ast.unparse(node.targets[0]) == "self.identifier_escapes" \
+                    and ast.unparse(node.value) == "identifier_escapes":
+                if "self.identifier_escapes = identifier_escapes" not in shape:
+                    shape.append("self.identifier_escapes = identifier_escapes")
+        for node in ast.walk(tk):
+            if isinstance(node, ast.keyword) and node.arg == "identifier_escapes":
+                shape.append("identifier_escapes=" + ast.unparse(node.value))
+            if isinstance(node, ast.Assign) and ast.unparse(node.targets[0]) == "cls._IDENTIFIER_ESCAPES":
+                shape.append(ast.unparse(node))
+    except Exception as e:  # noqa
+        chk.broken.append({"kind": "translator", "what": f"C04 translator: cannot read the identifier scanner ({e!r})"})
+    lines.append("def scanIdentifierShape : List String := [" + ", ".join(lean_str(x) for x in sorted(shape)) + "]")
+    live_ie = []
+    _, _, Dialect, *_ = sg()
+    tok_classes = {}
+    for nm in dialect_names():
+        Dialect.get_or_raise(nm or None)  # make sure every dialect module (and its tokenizer classes) is imported
+    import sqlglot.tokens as _tokens
+    stack = [_tokens.Tokenizer]
+    while stack:
+        tkc = stack.pop()
+        tok_classes[id(tkc._IDENTIFIERS)] = tkc
+        stack.extend(tkc.__subclasses__())
+    for label, rec in table.items():
+        L = live("" if label == "base" else label)
+        for k, core in enumerate(L["cores"]["id"]):
+            tkc = tok_classes.get(id(core.identifiers))
+            declared = sorted(set(tkc.IDENTIFIER_ESCAPES)) if tkc is not None else ["?"]
+            live_ie.append(f"({lean_str(label + '/' + str(k))}, {chars(declared)}, {chars(sorted(core.identifier_escapes))})")
+    lines.append("def identifierEscapesLive : List (String × List Char × List Char) := [" + ", ".join(live_ie) + "]")
     try:
         dflt, recs = esc_records(chk)
     except Shape as e:
@@ -716,11 +761,12 @@ def real_extract(core, kind: str, start: str, end: str, body: str) -> str:
     core.size = len(sql)
     try:
         core._advance(1)            # what _scan does for the first character
-        core._advance(len(start))   # _scan_string: _advance(len(start)); _scan_identifier: _advance()
         if kind == "str":
+            core._advance(len(start))   # _scan_string: _advance(len(start))
             text = core._extract_string(end, escapes=core.string_escapes, raw_string=False)
         else:
-            text = core._extract_string(end, escapes=core.identifier_escapes | {end})
+            core._scan_identifier(end)  # the real method: _advance(), its own choice of the escape set, _add
+            text = core.tokens[-1].text
     except Exception:  # noqa  (TokenizerCore.tokenize turns every exception into TokenError)
         return "err"
     return "ok " + show_cps(text) + "|" + str(len(sql) - core._current)
@@ -737,7 +783,10 @@ def real_scan_comment(core, body: str) -> str:
             return "notacomment"
     except Exception:  # noqa
         return "none"
-    return "some " + str(len(sql) - core._current)
+    text = core._comments[-1] if core._comments else (core.tokens[-1].comments[-1] if core.tokens and core.tokens[-1].comments else None)
+    if text is None:
+        return "some " + str(len(sql) - core._current) + "|?"
+    return "some " + str(len(sql) - core._current) + "|" + show_cps(text)
 
 
 BASE_ALPHA = ["'", '"', "`", "\\", "[", "]", "$", "/", "*", "-", "#", "{", "}", "+", "%", "_", "\n", "\r", "\x00", "\t", " ", "\x07", "\x08", "\x0b", "\x0c", "\x1b",
